@@ -18,7 +18,7 @@ PARSER_OBS = ['getHTML', 'getFormattedHTML', 'getMiniHTML', 'asHTML', 'getRoot',
               'byTagName', 'byName', 'byClassName', 'byAttr', 'withAttrValues', 'byId', 'customFilter', 'firstCustomFilter',
               'find', 'filter', 'filterOr', 'xpath', 'contains', 'containsUid', 'pickle', 'formatterOverOutput', 'reprParser']
 ELEM_OBS = ['outerHTML', 'innerHTML', 'innerText', 'textContent', 'text', 'str', 'repr', 'getStartTag', 'getEndTag', 'toHTML',
-            'getAttribute', 'hasAttribute', 'attrItems', 'attrKeys', 'attrValues', 'attrIter', 'attrLen', 'attrRepr', 'attrStr', 'attrIn', 'attrGet',
+            'getAttribute', 'hasAttribute', 'attrItems', 'attrKeys', 'attrValues', 'attrIter', 'attrLen', 'attrRepr', 'attrStr', 'attrIn', 'attrGet', 'attrSubscript', 'attrSubscriptMissing', 'attrNodeMap',
             'attributesList', 'attributesDict', 'getAttributesList', 'getAttributesDict', 'className', 'classList', 'classNames', 'hasClass',
             'styleStr', 'styleRead', 'getStyle', 'getStyleDict', 'styleRepr', 'styleCopy', 'styleEq', 'dotRead',
             'children', 'childNodes', 'childBlocks', 'getChildren', 'getChildBlocks', 'firstChild', 'lastChild', 'firstElementChild',
@@ -64,7 +64,7 @@ class C16(core.Check):
     def generate(self):
         rng = self.rng
         cases = []
-        n = 60 if self.tier == 'quick' else 1200
+        n = 120 if self.tier == 'quick' else 1500
         for i in range(n):
             kind = KINDS[i % 3]
             toks = c06.gen_doc(rng, 10 if self.tier == 'quick' else 25, multi=rng.random() < 0.15)
@@ -93,8 +93,11 @@ class C16(core.Check):
         if root is None:
             return ('no-root',)
         els = pc.preorder(root)
+        from AdvancedHTMLParser.Tags import AdvancedTag
         ident = tuple((id(e), e.uid, id(e.parentNode) if e.parentNode is not None else None,
-                       id(e.ownerDocument) if e.ownerDocument is not None else None, e.tagName) for e in els)
+                       id(e.ownerDocument) if e.ownerDocument is not None else None, e.tagName,
+                       tuple(id(c) for c in e.children), tuple(id(b) if isinstance(b, AdvancedTag) else b for b in e.blocks), e.text,
+                       e.isSelfClosing) for e in els)
         idx = None
         if hasattr(p, '_idMap'):
             idx = (tuple(sorted((k, id(v)) for k, v in p._idMap.items())),
@@ -153,7 +156,9 @@ class C16(core.Check):
                 'toHTML': lambda: e.toHTML(), 'getAttribute': lambda: e.getAttribute(attr), 'hasAttribute': lambda: e.hasAttribute(attr),
                 'attrItems': lambda: list(e.attributes.items()), 'attrKeys': lambda: list(e.attributes.keys()), 'attrValues': lambda: [str(v) for v in e.attributes.values()],
                 'attrIter': lambda: [k for k in e.attributes], 'attrLen': lambda: len(e.attributes), 'attrRepr': lambda: repr(e.attributes),
-                'attrStr': lambda: str(e.attributes), 'attrIn': lambda: attr in e.attributes, 'attrGet': lambda: str(e.attributes.get(attr)),
+                'attrStr': lambda: str(e.attributes), 'attrIn': lambda: attr in e.attributes, 'attrGet': lambda: str(e.attributes.get(attr)), 'attrSubscript': lambda: str(e.attributes[attr]),
+                'attrSubscriptMissing': lambda: (str(e.attributes['lang']), str(e.attributes['spellcheck'])),
+                'attrNodeMap': lambda: [str(e.attributesDOM.getNamedItem(attr)), len(e.attributesDOM)],
                 'attributesList': lambda: [(k, str(v)) for k, v in e.attributesList], 'attributesDict': lambda: {k: str(v) for k, v in e.attributesDict.items()},
                 'getAttributesList': lambda: [(k, str(v)) for k, v in e.getAttributesList()], 'getAttributesDict': lambda: {k: str(v) for k, v in e.getAttributesDict().items()},
                 'className': lambda: e.className, 'classList': lambda: list(e.classList), 'classNames': lambda: list(e.classNames), 'hasClass': lambda: e.hasClass(cls),
@@ -305,7 +310,8 @@ class C16(core.Check):
                 out.append(self._show_raw(raw) + flag)
         els = pc.preorder(p.getRoot())
         rank = {id(e): i for i, e in enumerate(els)}
-        ident = ';'.join('%d:%s:%s' % (i, e.tagName, '-' if e.parentNode is None else rank.get(id(e.parentNode), '?')) for i, e in enumerate(els))
+        ident = ';'.join('%d:%s:%s:%s' % (i, e.tagName, '-' if e.parentNode is None else rank.get(id(e.parentNode), '?'),
+                                          '.'.join(str(rank.get(id(c), '?')) for c in e.children)) for i, e in enumerate(els))
         return rec, mops, '|'.join(out) + '|H' + core.hx(p.getHTML()) + '|I' + ident
 
     def run_impl(self, case):
